@@ -98,7 +98,7 @@ def is_sentinel(P, n, depth=0):
     if d == USIZE_MAX:
         return True
     c = P.fns.get(d)
-    if c is not None and str(c.kind).startswith("Const") and depth < 2:
+    if c is not None and str(c.kind).startswith(("Const", "AssocConst")) and depth < 2:
         return is_sentinel(P, c.body, depth + 1)
     return False
 
@@ -121,7 +121,7 @@ def int_of(P, e, depth=0):
             return None
     if e.get("k") == "Path" and "def" in e:
         c = P.fns.get(norm(e["def"]))
-        if c is not None and str(c.kind).startswith("Const"):
+        if c is not None and str(c.kind).startswith(("Const", "AssocConst")):
             return int_of(P, c.body, depth + 1)
     if e.get("k") == "Binary" and e.get("op") in _FOLD:
         a, b = int_of(P, e["l"], depth + 1), int_of(P, e["r"], depth + 1)
@@ -135,10 +135,18 @@ def base_assigns(V, fn):
     """(delta base, assigned expression, node index) for every update of a delta base in fn: `self.b = e`, `self.rec.b = e`, or the
     whole record at once — `self.rec = Rec { b: e, .. }` (one update per field written in the literal; a `..rest` keeps the
     others) or `self.rec = <anything else>` (every base, from that expression)"""
+    pv = None
     for i, (n, _) in enumerate(fn.nodes()):
         if n.get("k") != "Assign":
             continue
         l = strip(n["l"])
+        if isinstance(l, dict) and l.get("k") == "Path" and "local" in l and str(l.get("t", "")).startswith("&mut") and n["l"].get("k") == "Unary":
+            # `*slot = e` where slot is a `&mut` to exactly one delta base (picked by a selector closure / helper)
+            pv = pv or Prov(fn, field_assign=False)
+            hit = sorted({a[2] for a in pv.atoms(l) if a[0] == "field" and a[1] == V.base_adt and a[2] in V.bases})
+            if len(hit) == 1:
+                yield hit[0], n["r"], i
+            continue
         if not isinstance(l, dict) or l.get("k") != "Field":
             continue
         if norm(l.get("adt")) == V.base_adt and l["field"] in V.bases:
@@ -286,7 +294,7 @@ def digit_table(P, x):
     if not (isinstance(b, dict) and b.get("k") == "Path" and "def" in b):
         return None
     c = P.fns.get(norm(b["def"]))
-    if c is None or not str(c.kind).startswith(("Const", "Static")):
+    if c is None or not str(c.kind).startswith(("Const", "AssocConst", "Static")):
         return None
     chars = "".join(y.get("v") for y in c.walk() if y.get("k") == "Lit" and y.get("lk") == "char")
     if not chars:
@@ -558,7 +566,8 @@ def entry_roles(P):
 
     found = {}
     for b, e, _ in base_assigns(V, f):
-        found.setdefault(b, []).append(C.access(e))
+        if int_of(P, e) is None:      # a constant re-bases the field (new line); it says nothing about which input the field remembers
+            found.setdefault(b, []).append(C.access(e))
     for n in f.walk():
         if n.get("k") == "Binary" and n.get("op") == "-" and is_base(V, C.resolve(n["r"])):
             found.setdefault(is_base(V, C.resolve(n["r"])), []).append(C.access(n["l"]))
@@ -615,13 +624,14 @@ def r06a(P, R):
             continue
         la, ra = pv.atoms(l), pv.atoms(r)
         lf, rf = last_fields(la), last_fields(ra)
-        if op == "-" and len(rf) == 1 and not lf:
+        if op == "-" and len(rf) == 1 and not lf and quantity(la):
             deltas.setdefault(rf[0], []).append((quantity(la), cond_ctx(f, i), "-"))
-        elif op == "!=" and len(lf) + len(rf) == 1:
+        elif op == "!=" and len(lf) + len(rf) == 1 and quantity(ra if lf else la):
             deltas.setdefault((lf or rf)[0], []).append((quantity(ra if lf else la), cond_ctx(f, i), "!="))
     assigns = {}
     for b_, e_, i in base_assigns(V, f):
-        assigns.setdefault(b_, []).append((quantity(pv.atoms(e_)), cond_ctx(f, i)))
+        if quantity(pv.atoms(e_)):        # a constant (`= 0` when a new line starts) re-bases the field; it is not the per-segment update
+            assigns.setdefault(b_, []).append((quantity(pv.atoms(e_)), cond_ctx(f, i)))
     R.floor("R06-a", "delta bases (last_* fields)", len(bases), 6)
     reads = {n["field"] for n in f.walk() if n.get("k") == "Field" and norm(n.get("adt")) == V.base_adt}
     rebuilt = any(n.get("k") == "Struct" and "rest" not in n and norm(n.get("adt", "")) == MW for n in f.walk())
@@ -787,6 +797,14 @@ def r06b(P, R):
     in_table = [n for g in [rg0] + [g for g in scope_fns(P, rg0) if "::FileMap" in (g.sig_output or "")] for n in g.walk() if is_sentinel(P, n)]
     if not in_table:
         R.holds("R06-b", "sources-filter-sentinel", "the index table stores no sentinel (it is introduced at the SourceWriter boundary only)", loc=w.loc())
+        return
+    wi = inl(P, w)
+    pvw = Prov(wi)
+    fm_adt = P.adt("FileMap")
+    table_f = [f_ for f_, t in fm_adt.field_types().items() if "usize" in t]
+    srcs = [c for c in wi.walk() if c.get("k") == "Call" and (call_name(c) or "").endswith("print_source_map_json") and len(c["args"]) > 1]
+    if srcs and table_f and not any(has_field(pvw.atoms(c["args"][1]), fm_adt.path, f_) for c in srcs for f_ in table_f):
+        R.holds("R06-b", "sources-filter-sentinel", "`sources` is not read off the index table (nothing to filter)", loc=w.loc())
         return
     tests = [n for g in scope_fns(P, P.fn("nitrogql_cli::generate::run_generate")) + scope_fns(P, w) for n in g.walk()
              if (n.get("k") == "Binary" and n.get("op") in ("==", "!=") and (is_sentinel(P, n["l"]) or is_sentinel(P, n["r"])))
@@ -1073,6 +1091,7 @@ def r06e(P, R):
     tables = [f for f, t in types.items() if "usize" in t]
     F_STORE = stores[0] if len(stores) == 1 else "file_store"
     F_TABLE = tables[0] if len(tables) == 1 else "file_indices"
+    F_PATHS = [f for f, t in types.items() if "Vec<" in t and "Path" in t]      # a FileMap may store the `sources` list itself
     # FileMap constructor functions are looked into; everything else run_generate calls is not
     rg = inl(P, rg0, _returns_filemap)
     C = Comp(P, rg)
@@ -1142,6 +1161,16 @@ def r06e(P, R):
             R.holds("R06-e", "filemap-same-store:%d" % j, "indices are computed by iterating the file store", loc=rg.loc())
         else:
             R.undecided("R06-e", "filemap-same-store:%d" % j, "the index table is not computed from FileStore::iter(); how it enumerates the files is not decided", loc=rg.loc())
+        # another representation: the FileMap stores the `sources` list, filled in the same pass that numbers the files — a file's index
+        # is the position at which its path was just pushed, so table and list agree by construction
+        pushed = {strip(y["recv"]).get("local") for y in subnodes(fi) if y.get("k") == "MethodCall" and y.get("method") == "push"
+                  and strip(y["recv"]).get("k") == "Path"} - {None}
+        stored = {y.get("local") for x in fm["fields"] if x["name"] in F_PATHS for y in subnodes(x["e"]) if y.get("k") == "Path"}
+        numbered = [y for y in subnodes(fi) if y.get("k") == "Binary" and y.get("op") == "-" and int_of(P, y["r"]) == 1
+                    and strip(y["l"]).get("k") == "MethodCall" and strip(y["l"]).get("method") == "len" and strip(strip(y["l"])["recv"]).get("local") in pushed]
+        if pushed & stored and numbered:
+            R.holds("R06-e", "index-table:sequential:%d" % j, "a source's index is its position in the `sources` list the same pass builds", loc=rg.loc())
+            continue
         # index table: Schema -> own index (schema files come first, so position == index); the operation file -> schema_len(); else
         # "not a source" (the sentinel, or None in a table of options) — written as an if/else chain or as a match on the kind
         def locals_in(es):
@@ -1171,6 +1200,15 @@ def r06e(P, R):
         else:
             R.undecided("R06-e", "index-table:%d" % j, "the index table is neither an if/else chain nor a match on the file kind", loc=rg.loc())
             continue
+        def known(v):
+            return absent(v) or to_schema_len(v) or (isinstance(v, dict) and v.get("k") == "Path" and "local" in v)
+
+        def to_schema_len(v):
+            return isinstance(v, dict) and v.get("k") == "MethodCall" and (call_name(v) or "").endswith("FileStore::schema_len")
+        if not all(known(v) for _, _, v in rows) or (default is not None and default and not known(default)):
+            R.undecided("R06-e", "index-table:%d" % j, "a row of the index table yields a value this rule does not read (neither an index, schema_len(), "
+                        "nor the not-a-source marker)", loc=rg.loc())
+            continue
         first_bindings, kind_locals = set(), set()
         for cl in subnodes(fi):
             if cl.get("k") == "Closure" and cl["params"]:
@@ -1187,8 +1225,6 @@ def r06e(P, R):
                     "the row `kind == Schema -> idx` of the index table also admits other files or does not yield the file's own index (only "
                     "schema files, which come first in the store, may keep their own index)", loc=rg.loc())
 
-        def to_schema_len(v):
-            return isinstance(v, dict) and v.get("k") == "MethodCall" and (call_name(v) or "").endswith("FileStore::schema_len")
         uses_current = any(c_[0] == "loop" for c_ in enclosing_contexts(rg, i))
         if uses_current:
             R.check("R06-e", "index-table:operation-row:%d" % j, any(to_schema_len(v) for _, _, v in rows),
@@ -1263,7 +1299,8 @@ def r06e(P, R):
         else:
             R.check("R06-e", "map-file-anchor", len(p0) == 1 and any(p0 == t for t in tp), "`sources` are made relative to the generated file that the map sits next to",
                     "print_source_map_json is given a different path than the one the output is written to", loc=w.loc())
-        ok = any(("param", x) in a1 for x in fm_params) and has_field(a1, FM, F_TABLE) and has_field(a1, FM, F_STORE)
+        stored_list = any(has_field(a1, FM, f_) for f_ in F_PATHS)
+        ok = any(("param", x) in a1 for x in fm_params) and ((has_field(a1, FM, F_TABLE) and has_field(a1, FM, F_STORE)) or stored_list)
         if ok or not any(x[0] == "param" and x[1] not in fm_params for x in a1):
             R.check("R06-e", "sources-from-filemap", ok, "`sources` is derived from the same FileMap as the index mapper",
                     "`sources` is not derived from the FileMap's index table zipped with its file store", loc=w.loc())
@@ -1282,6 +1319,8 @@ def r06e(P, R):
                                                                                                     "sort_by_key", "sort_unstable", "reverse", "step_by")})
         if bad:
             R.violated("R06-e", "sources-order", "`sources` is reordered/truncated relative to the index table (%s)" % bad, loc=w.loc())
+        elif stored_list and not zips:
+            R.holds("R06-e", "sources-order", "`sources` is the list stored in the FileMap, in the order it was numbered", loc=w.loc())
         elif len(zips) != 1:
             R.undecided("R06-e", "sources-order", "`sources` is not computed by one zip of the index table with the file store", loc=w.loc())
         else:
@@ -1442,7 +1481,22 @@ def r06f(P, R):
             continue
         (si, sh), (mi, ma) = shifts[0], masks[0]
         var = sh["l"].get("local")
-        if len(conts) == 1:
+        # is the group read into a variable that lives across iterations (`digit = rest & 31;` — the digit emitted in an iteration is
+        # the one read in the previous one) or into a binding of this iteration (`let d = value & 31`)?
+        carried = any(p_.get("k") == "Assign" and strip(p_["l"]).get("k") == "Path" for p_ in b.parents_of(mi)[:2])
+        if len(conts) == 1 and carried:
+            ci, co = conts[0]
+            form = test_form(co["cond"], var)
+            if form is not None and 32 not in ints_in(co.get("then")):
+                form = (form[0], INVERT.get(form[1], form[1]), form[2])
+            if form is None or form[0] != "var" or ci > mi:
+                R.undecided("R06-f", "vlq-continuation", "the continuation test of the carried digit is not a comparison of the remaining value made before "
+                            "the next group is read", loc=b.loc())
+            else:
+                R.check("R06-f", "vlq-continuation", form in remainder_positive, "a digit gets the continuation bit <=> a non-zero remainder is left when it is emitted",
+                        "the carried digit gets its continuation bit while `rest %s %d`, although what is left after it is exactly `rest`: for some "
+                        "values the last digit carries a dangling continuation bit, or a following digit is not announced" % (form[1], form[2]), loc=b.loc())
+        elif len(conts) == 1:
             ci, co = conts[0]
             form = test_form(co["cond"], var)
             if form is not None and 32 not in ints_in(co.get("then")):
